@@ -217,7 +217,9 @@ def compare(rep, pending, m_out):
         if pred != obs or not tail.startswith('buf=0 '):
             bad += 1
             rep.violation({'kind': 'wfile-calls-differ', 'file': f['name'], 'file_kind': kind, 'options': m['opts'], 'history': m['ops'],
-                           'history_seed': m['seed'], 'case': line[:20000], 'implementation': obs[:20000], 'model': mo[:20000]})
+                           'history_seed': m['seed'], 'case': line[:20000], 'implementation': obs[:20000], 'model': mo[:20000],
+                           'correspondence_that_no_longer_checks': 'WFile.v (64 KiB buffered writable file) vs the traced write(2)/fsync calls of ldb_wfile_*: theorems Properties_C03b.*; the crash-image segment of this check is the search for a failing input'},
+                          suffix=('no-failing-input-found' if tail.startswith('buf=0 ') else ''))
         elif not sampled and kind == 'log' and 60 < len(line) < 300:
             sampled = True; rep.sample('%s: %s => %s' % (f['name'], line, mo))
     return bad
